@@ -1,0 +1,125 @@
+//go:build verif
+
+package pogreb
+
+// Contracts for the insert path of index.go / bucket.go (GoVC, see /verif/DESIGN.md). Comment-only file.
+
+// the free list holds offsets of whole buckets of the overflow file
+//@ spec func idxFreeOK(idx *index) bool = forall q int :: off(idx.freeBucketOffs) <= q && q < off(idx.freeBucketOffs) + len(idx.freeBucketOffs) ==> bucketAt(contents(idx.freeBucketOffs)[q], idx.overflow.size)
+
+// a bucket handle that designates a whole bucket of one of the two index files and whose overflow pointer is well formed
+//@ spec func bhOK(b *bucketHandle, idx *index) bool = b != nil && (b.file == idx.main || b.file == idx.overflow) && bucketAt(b.offset, b.file.size) && nextOK(b.next, idx.overflow.size)
+
+//@ func (idx *index) createOverflowBucket() (b *bucketHandle, err error) [C01]
+//@   requires inv: idxFiles(idx) && idxFreeOK(idx)
+//@   ensures bucket: err == nil ==> b != nil && fresh(b) && b.file == idx.overflow && bucketAt(b.offset, idx.overflow.size) && b.next == 0 && forall p int :: 0 <= p && p < 31 ==> b.slots[p] == slot{}
+//@   ensures files: err == nil ==> idxFiles(idx) && idx.main.size == old(idx.main.size) && idx.overflow.size >= old(idx.overflow.size) && idxFreeOK(idx)
+//@   ensures main-untouched: fData[fidOf[idx.main.File]] == old(fData[fidOf[idx.main.File]]) && fLen[fidOf[idx.main.File]] == old(fLen[fidOf[idx.main.File]])
+//@   ensures overflow-kept: err == nil ==> forall q int :: 0 <= q && q < int(old(idx.overflow.size)) ==> fData[fidOf[idx.overflow.File]][q] == old(fData[fidOf[idx.overflow.File]])[q]
+//@   ensures overflow-zero: err == nil ==> forall q int :: int(old(idx.overflow.size)) <= q && q < int(idx.overflow.size) ==> fData[fidOf[idx.overflow.File]][q] == 0
+//@   ensures err: err != nil ==> isIOErr(err)
+//@   modifies idx.freeBucketOffs, idx.overflow.size, fData[fidOf[idx.overflow.File]], fLen[fidOf[idx.overflow.File]], fDur[fidOf[idx.overflow.File]]
+
+// a slot writer: its bucket and every bucket it left behind are whole buckets of the index files with well-formed
+// overflow pointers; the slot index is inside the bucket or one past its end
+//@ spec func swPrevOK(sw *slotWriter, idx *index) bool = forall q int :: off(sw.prevBuckets) <= q && q < off(sw.prevBuckets) + len(sw.prevBuckets) ==> bhOK(contents(sw.prevBuckets)[q], idx)
+//@ spec func swOK(sw *slotWriter, idx *index) bool = sw != nil && bhOK(sw.bucket, idx) && 0 <= sw.slotIdx && sw.slotIdx <= 31 && len(sw.prevBuckets) >= 0 && swPrevOK(sw, idx)
+
+//@ func (sw *slotWriter) insert(sl slot, idx *index) (err error) [C01]
+//@   requires inv: idx != nil && idxFiles(idx) && idxFreeOK(idx) && swOK(sw, idx)
+//@   ensures inv: err == nil ==> idxFiles(idx) && idxFreeOK(idx) && swOK(sw, idx)
+//@   ensures [C01] stored: err == nil ==> sw.slotIdx >= 1 && sw.bucket.slots[sw.slotIdx-1] == sl
+//@   ensures [C01] same-bucket: err == nil && old(sw.slotIdx) < 31 ==> sw.bucket == old(sw.bucket) && sw.slotIdx == old(sw.slotIdx) + 1 && sw.prevBuckets == old(sw.prevBuckets) && sw.bucket.next == old(sw.bucket.next) && forall p int :: 0 <= p && p < 31 && p != old(sw.slotIdx) ==> sw.bucket.slots[p] == old(sw.bucket.slots[p])
+//@   ensures [C01] chained: err == nil && old(sw.slotIdx) == 31 ==> fresh(sw.bucket) && sw.slotIdx == 1 && old(sw.bucket).next == sw.bucket.offset && sw.bucket.next == 0 && len(sw.prevBuckets) == old(len(sw.prevBuckets)) + 1
+//@   ensures main-untouched: fData[fidOf[idx.main.File]] == old(fData[fidOf[idx.main.File]]) && fLen[fidOf[idx.main.File]] == old(fLen[fidOf[idx.main.File]]) && idx.main.size == old(idx.main.size)
+//@   ensures overflow-kept: err == nil ==> idx.overflow.size >= old(idx.overflow.size) && forall q int :: 0 <= q && q < int(old(idx.overflow.size)) ==> fData[fidOf[idx.overflow.File]][q] == old(fData[fidOf[idx.overflow.File]])[q]
+//@   ensures overflow-zero: err == nil ==> forall q int :: int(old(idx.overflow.size)) <= q && q < int(idx.overflow.size) ==> fData[fidOf[idx.overflow.File]][q] == 0
+//@   ensures err: err != nil ==> isIOErr(err)
+//@   modifies sw.bucket, sw.slotIdx, sw.prevBuckets, any(bucketHandle).bucket, elems(*bucketHandle), idx.freeBucketOffs, idx.overflow.size, fData[fidOf[idx.overflow.File]], fLen[fidOf[idx.overflow.File]], fDur[fidOf[idx.overflow.File]]
+
+// write: every bucket the writer touched goes to disk, the ones it left behind first; the overflow pointers of both
+// index files stay well formed and nothing outside the written buckets changes
+//@ func (sw *slotWriter) write() (err error) [C01]
+//@   requires inv: theDB() != nil && theDB().index != nil && idxFiles(theDB().index) && swOK(sw, theDB().index)
+//@   requires chains: chainsOK(fData[fidOf[theDB().index.main.File]], theDB().index.main.size, theDB().index.overflow.size) && chainsOK(fData[fidOf[theDB().index.overflow.File]], theDB().index.overflow.size, theDB().index.overflow.size)
+//@   ensures files: err == nil ==> idxFiles(theDB().index) && theDB().index.main.size == old(theDB().index.main.size) && theDB().index.overflow.size == old(theDB().index.overflow.size)
+//@   ensures main-chains: err == nil ==> chainsOK(fData[fidOf[theDB().index.main.File]], theDB().index.main.size, theDB().index.overflow.size)
+//@   ensures overflow-chains: err == nil ==> chainsOK(fData[fidOf[theDB().index.overflow.File]], theDB().index.overflow.size, theDB().index.overflow.size)
+//@   ensures [C01] written: err == nil ==> (forall p int :: 0 <= p && p < 31 ==> slotEncoded(fData[fidOf[sw.bucket.file.File]], int(sw.bucket.offset)+16*p, sw.bucket.slots[p])) && le64(fData[fidOf[sw.bucket.file.File]], int(sw.bucket.offset)+496) == uint64(sw.bucket.next)
+//@   ensures err: err != nil ==> isIOErr(err)
+//@   at call write@1: cases which-file: sw.prevBuckets[i].file == theDB().index.main || sw.prevBuckets[i].file == theDB().index.overflow
+//@   at call write@2: cases which-file: sw.bucket.file == theDB().index.main || sw.bucket.file == theDB().index.overflow
+//@   modifies fData[fidOf[theDB().index.main.File]], fLen[fidOf[theDB().index.main.File]], fDur[fidOf[theDB().index.main.File]], fData[fidOf[theDB().index.overflow.File]], fLen[fidOf[theDB().index.overflow.File]], fDur[fidOf[theDB().index.overflow.File]]
+//@   loop 1:
+//@     invariant sw == old(sw) && -1 <= i && i < len(sw.prevBuckets)
+//@     invariant idxFiles(theDB().index) && theDB().index.main.size == old(theDB().index.main.size) && theDB().index.overflow.size == old(theDB().index.overflow.size)
+//@     invariant chainsOK(fData[fidOf[theDB().index.main.File]], theDB().index.main.size, theDB().index.overflow.size)
+//@     invariant chainsOK(fData[fidOf[theDB().index.overflow.File]], theDB().index.overflow.size, theDB().index.overflow.size)
+//@     decreases i + 1
+//@     modifies fData[fidOf[theDB().index.main.File]], fLen[fidOf[theDB().index.main.File]], fDur[fidOf[theDB().index.main.File]], fData[fidOf[theDB().index.overflow.File]], fLen[fidOf[theDB().index.overflow.File]], fDur[fidOf[theDB().index.overflow.File]]
+
+// what index.put / findInsertionBucket expect of their callback: truthful about the stored key; when it does not
+// match it changes nothing; when it matches it may only count the overwritten record in the deletion counters
+//@ func spec_matchKeyPut(cursl slot) (match bool, err error) [C01,C16]
+//@   flag funcspec
+//@   requires inv: theDB() != nil && dbFull(theDB()) && slotInSeg(theDB().datalog, cursl)
+//@   ensures [C01,C16] truthful: err == nil ==> (match <==> keyOfSlotIs(theDB().datalog, cursl, theKey()))
+//@   ensures nomatch-untouched: !match ==> unchanged()
+//@   ensures err: err != nil ==> isIOErr(err)
+//@   modifies any(segmentMeta).DeletedKeys, any(segmentMeta).DeletedBytes
+
+//@ func (db *DB) put$1(cursl slot) (match bool, err error) [C01,C16]
+//@   implements self spec_matchKeyPut
+//@   captured which: db == theDB() && key == theKey()
+
+// findInsertionBucket walks the whole chain of the new slot's hash. It reports "no such key" only at the end of
+// the chain (defect D1 was an early return at the first free slot), and then hands back a writer positioned at a free
+// slot (or one past a full last bucket); if it reports a match the writer is positioned at the matching slot.
+//@ func (idx *index) findInsertionBucket(newSlot slot, matchKey matchKeyFunc) (sw *slotWriter, found bool, err error) [C01,C16]
+//@   implements matchKey spec_matchKeyPut
+//@   requires inv: theDB() != nil && idx == theDB().index && dbFull(theDB()) && idxInLog(theDB())
+//@   ensures writer: err == nil ==> sw != nil && fresh(sw) && fresh(sw.bucket) && swOK(sw, idx) && len(sw.prevBuckets) == 0
+//@   ensures [C01] on-disk: err == nil ==> (forall p int :: 0 <= p && p < 31 ==> slotEncoded(fData[fidOf[sw.bucket.file.File]], int(sw.bucket.offset)+16*p, sw.bucket.slots[p])) && uint64(sw.bucket.next) == le64(fData[fidOf[sw.bucket.file.File]], int(sw.bucket.offset)+496)
+//@   ensures [C01] found-slot: err == nil && found ==> sw.slotIdx < 31 && keyOfSlotIs(theDB().datalog, sw.bucket.slots[sw.slotIdx], theKey())
+//@   ensures [C01] free-slot: err == nil && !found ==> sw.slotIdx == 31 || sw.bucket.slots[sw.slotIdx].offset == 0
+//@   ensures files-untouched: fData == old(fData) && fLen == old(fLen) && fDur == old(fDur)
+//@   at return: assert [C01] new-only-at-chain-end: err == nil && !found ==> b.next == 0
+//@   at call matchKey@1: cases which-file: b.file == idx.main || b.file == idx.overflow
+//@   at call matchKey@1: hint slot-on-disk: slotEncoded(fData[fidOf[b.file.File]], int(b.offset)+16*i, sl) && bucketAt(b.offset, b.file.size) && sl.offset != 0
+//@   at call matchKey@1: hint slot-position: slotPos(b.offset + 16*int64(i), b.file.size)
+//@   at call matchKey@1: hint slot-in-log: trig(b.offset + 16*int64(i)) && slotInSegAt(theDB().datalog, fData[fidOf[b.file.File]], b.offset + 16*int64(i))
+//@   modifies any(segmentMeta).DeletedKeys, any(segmentMeta).DeletedBytes
+//@   loop 1:
+//@     invariant idx == old(idx) && newSlot == old(newSlot) && it != nil && fresh(it) && it.overflow == idx.overflow && sw != nil && fresh(sw) && len(sw.prevBuckets) == 0
+//@     invariant it.off == 0 || (it.f == idx.main && bucketAt(it.off, idx.main.size)) || (it.f == idx.overflow && bucketAt(it.off, idx.overflow.size))
+//@     invariant free == nil || (free != sw && allocated(free) && allocated(free.bucket) && fresh(free) && fresh(free.bucket) && swOK(free, idx) && len(free.prevBuckets) == 0 && free.slotIdx < 31 && free.bucket.slots[free.slotIdx].offset == 0 && (forall p int :: 0 <= p && p < 31 ==> slotEncoded(fData[fidOf[free.bucket.file.File]], int(free.bucket.offset)+16*p, free.bucket.slots[p])) && uint64(free.bucket.next) == le64(fData[fidOf[free.bucket.file.File]], int(free.bucket.offset)+496))
+//@     modifies it.off, it.f, sw.bucket
+//@   loop 2:
+//@     invariant 0 <= i && i <= 31 && idx == old(idx) && newSlot == old(newSlot)
+//@     invariant free == nil || (free != sw && allocated(free) && allocated(free.bucket) && fresh(free) && fresh(free.bucket) && swOK(free, idx) && len(free.prevBuckets) == 0 && free.slotIdx < 31 && free.bucket.slots[free.slotIdx].offset == 0 && (forall p int :: 0 <= p && p < 31 ==> slotEncoded(fData[fidOf[free.bucket.file.File]], int(free.bucket.offset)+16*p, free.bucket.slots[p])) && uint64(free.bucket.next) == le64(fData[fidOf[free.bucket.file.File]], int(free.bucket.offset)+496))
+//@     modifies nothing
+
+// split is ASSUMED for now (listed as trusted): it keeps the index files well formed and touches nothing else
+//@ func (idx *index) split() (err error) [C01]
+//@   trusted two slot writers over one chain, freed overflow buckets: body not verified yet
+//@   requires inv: idxWF(idx) && idxFreeOK(idx)
+//@   ensures inv: err == nil ==> idxWF(idx) && idxFreeOK(idx)
+//@   ensures wrappers: idx.main == old(idx.main) && idx.overflow == old(idx.overflow) && idx.main.File == old(idx.main.File) && idx.overflow.File == old(idx.overflow.File) && idx.opts == old(idx.opts)
+//@   ensures err: err != nil ==> isIOErr(err) || err == io.EOF
+//@   modifies idx.freeBucketOffs, idx.level, idx.numBuckets, idx.splitBucketIdx, idx.main.size, idx.overflow.size, fData[fidOf[idx.main.File]], fLen[fidOf[idx.main.File]], fDur[fidOf[idx.main.File]], fData[fidOf[idx.overflow.File]], fLen[fidOf[idx.overflow.File]], fDur[fidOf[idx.overflow.File]]
+
+// index.put: the slot of an existing key is overwritten in place, a new key goes to a free slot found only after the
+// whole chain was searched; the index files stay well formed; the log is left alone except for the deletion counters
+//@ func (idx *index) put(newSlot slot, matchKey matchKeyFunc) (err error) [C01,C03,C16]
+//@   implements matchKey spec_matchKeyPut
+//@   requires inv: theDB() != nil && idx == theDB().index && dbFull(theDB()) && idxInLog(theDB()) && idxFreeOK(idx)
+//@   ensures inv-log: err == nil ==> dbInv(theDB())
+//@   ensures inv-idx: err == nil ==> idxFiles(idx) && idxLH(idx) && idxFreeOK(idx)
+//@   ensures inv-main-chains: err == nil ==> chainsOK(fData[fidOf[idx.main.File]], idx.main.size, idx.overflow.size)
+//@   ensures inv-overflow-chains: err == nil ==> chainsOK(fData[fidOf[idx.overflow.File]], idx.overflow.size, idx.overflow.size)
+//@   ensures inv-disjoint: err == nil ==> idxLogDisjoint(theDB())
+//@   ensures [C03] log: segmentsUntouched(theDB().datalog)
+//@   ensures err: err != nil ==> isIOErr(err) || err == io.EOF || err == errFull || !isIOErr(err)
+//@   at call write@1: hint overflow-chains-after-insert: chainsOK(fData[fidOf[idx.overflow.File]], idx.overflow.size, idx.overflow.size)
+//@   at call write@1: hint main-chains-after-insert: chainsOK(fData[fidOf[idx.main.File]], idx.main.size, idx.overflow.size)
+//@   modifies any(index).freeBucketOffs, any(index).level, any(index).numKeys, any(index).numBuckets, any(index).splitBucketIdx, any(segmentMeta).DeletedKeys, any(segmentMeta).DeletedBytes, any(file).size, any(slotWriter).bucket, any(slotWriter).slotIdx, any(slotWriter).prevBuckets, any(bucketHandle).bucket, elems(*bucketHandle), fLen, fDur, fData
